@@ -35,8 +35,9 @@ ACTIONS_CORE = ["Cl_Connect", "Srv_Enqueue", "Cl_Send", "Cl_Close", "Cl_Vanish",
 
 # (cfg, note, expectation, coverage actions or None, module)
 QUICK_MC = [
-    ("quick", "Dev={} 1 client, pool 2, heartbeat, echo, ext bc; invariants + liveness", "ok",
-     ACTIONS_CORE + ["Ext_Send", "Loop_Timeout", "Loop_AdmitDrop"]),
+    ("quick", "Dev={} 1 client, pool 2, echo, ext bc; invariants + liveness", "ok", ACTIONS_CORE + ["Ext_Send"]),
+    ("hb", "Dev={} heartbeat: ping rounds, pongs, timeouts; 1 client x <=2 msgs", "ok",
+     [a for a in ACTIONS_CORE if a != "Loop_Flush"] + ["Cl_Pong", "Loop_RecvCtl", "Loop_Timeout", "Loop_AdmitDrop"]),
     ("aswritten_n1", "as written, 1 worker, 2 clients, bc replies: all properties", "ok", None),
     ("aswritten_n2", "as written, 2 workers: dispatch + delivery properties", "ok", None),
     ("lockstep", "lock-step sub-behaviours (generation mode)", "ok", None),
@@ -57,6 +58,7 @@ MUST_VIOLATE = [
     ("dev_DoubleDisconnect", "plausible bug"), ("dev_RemoveOnNone", "plausible bug"),
     ("dev_LateConnect", "plausible bug"), ("dev_BroadcastSkipsSender", "plausible bug"),
     ("dev_UnicastToAll", "plausible bug"),
+    ("dev_PingSkippedWhenActive", "seeded change: active client never pinged"),
     ("reach_ParallelHandlers", "reachability"), ("reach_BroadcastToTwo", "reachability"),
     ("reach_UnicastDropped", "reachability"), ("reach_QuiescentDone", "reachability"),
     ("reach_TimeoutLive", "reachability"), ("reach_MsgAfterVanish", "reachability"),
@@ -171,8 +173,9 @@ def validate_batches(ctx, batches, counters, tag="tr"):
     return {o: tuple(v) for o, v in out.items()}
 
 
-def harness_random(binp, nruns, first, maxc, seed_shift):
-    p = run_bin(binp, ["random", str(nruns), str(first), str(maxc)], timeout=1500, env={"VERIF_SEED": vlib.seed() + seed_shift})
+def harness_random(binp, nruns, first, maxc, seed_shift, chatty=0):
+    p = run_bin(binp, ["random", str(nruns), str(first), str(maxc), str(chatty)], timeout=1500,
+                env={"VERIF_SEED": vlib.seed() + seed_shift})
     if p.returncode != 0:
         raise ToolError("wsasync random failed rc=%s: %s" % (p.returncode, p.stderr[-2000:]))
     recs = parse_jsonl(p.stdout)
@@ -242,7 +245,7 @@ def replay_and_judge(ctx, binp, behaviours, origin, counters, strict):
     return out, results
 
 
-def selftest(ctx, binp, good_runs, behaviours):
+def selftest(ctx, binp, good_runs, behaviours, hb_runs=()):
     """corrupt one logged field / one expected value and require rejection"""
     wd = vlib.workdir("C12")
     muts = []
@@ -356,6 +359,25 @@ def selftest(ctx, binp, good_runs, behaviours):
             mutate(name, f)
         except StopIteration:
             pass
+    # the heartbeat reaps a client that is open and answered every ping, with no measured stall to excuse it
+    for r in hb_runs:
+        k = next((i for i, e in enumerate(r) if e["ev"] == "C_Pong"
+                  and any(x["ev"] == "Loop_Admit" and x["c"] == e["c"] for x in r[:i])
+                  and not any(x["ev"] in ("Loop_Remove", "C_Close", "C_Vanish") and x["c"] == e["c"] for x in r[:i])), None)
+        if k is None or len(r) > 3000:
+            continue
+        r2 = copy.deepcopy(r)
+        t = copy.deepcopy(r2[k])
+        t["ev"], t["n"] = "Loop_Timeout", 0
+        rm = copy.deepcopy(t)
+        rm["ev"], rm["n"] = "Loop_Remove", 1
+        r2[k + 1:k + 1] = [t, rm]
+        for e in r2:
+            e["run"] = len(muts) + 1
+        muts.append(("heartbeat reaps an open client that answered every ping (no stall measured)", r2))
+        break
+    else:
+        raise ToolError("self-test: no heartbeat run with an answered ping")
     p = os.path.join(wd, "selftest%d.ndjson" % os.getpid())
     vlib.write_lines(p, [e for _, r in muts for e in r])
     t = trace_tlc(p, True, "self")
@@ -473,7 +495,9 @@ def run_inner(tier, replay):
     nproc = 3
     per = nrand // nproc
     with cf.ThreadPoolExecutor(max_workers=nproc) as ex:
-        outs = list(ex.map(lambda k: harness_random(binp, per, 1 + k * per, 8, k), range(nproc)))
+        # the first runs of every process are "chatty client under a short heartbeat" scenarios
+        nchat = 2 if thorough else 1
+        outs = list(ex.map(lambda k: harness_random(binp, per, 1 + k * per, 8, k, nchat), range(nproc)))
     events = [e for evs, _ in outs for e in evs]
     runs = split_runs(events)
     stats = {}
@@ -495,7 +519,8 @@ def run_inner(tier, replay):
     ctx.add_part("trace verdicts (accepted with Dev={}, attributed to InvocationInversion, violations)", **{o: list(v) for o, v in verdicts.items()})
     ctx.add_part("random scenarios", runs=len(runs), accepted_dev_none=acc, attributed_to_InvocationInversion=att, violations=vio,
                  events=stats, pools=sorted({x["workers"] for x in scen}), clients=sorted({x["clients"] for x in scen}),
-                 heartbeat_runs=sum(1 for x in scen if x["heartbeat"]), internal_app_runs=sum(1 for x in scen if x["internal_app"]),
+                 heartbeat_runs=sum(1 for x in scen if x["heartbeat"]), chatty_heartbeat_runs=sum(1 for x in scen if x.get("chatty")),
+                 internal_app_runs=sum(1 for x in scen if x["internal_app"]),
                  early_shutdown_runs=sum(1 for x in scen if x["early_shutdown"]),
                  poll_us=sorted({x["poll_us"] for x in scen})[:12])
     for x in scen[:4]:
@@ -505,7 +530,7 @@ def run_inner(tier, replay):
 
     # ---- 4. self-test of the binding ----------------------------------------------------------------------------
     good = [r for r in runs if r[0]["nw"] == 1]
-    selftest(ctx, binp, good if good else runs, beh_all)
+    selftest(ctx, binp, good if good else runs, beh_all, [r for r in runs if r[0]["hb"] == 1])
 
     ctx.add_part("lock-step", **{k: v for k, v in counters.items() if k != "inversion_examples"})
     ctx.cov["rule"] = ("evaluations = log records validated by TLC + loop iterations compared with TLC's prediction; "
